@@ -1115,7 +1115,7 @@ def multidir_case(ctx, ms, mode, seq, index_of, by_name, jenv, check_enum):
                      f"{target.__name__} -> {got}: get_source loads {txt!r}, expected the file of {'user directory %d' % holders[0] if holders else 'the package'}",
                      {**rp, "loaded": txt})
     if check_enum:
-        # get_templates() (what --list-inputs reports) against resolution
+        # get_templates() (the templates among what --list-inputs reports) against resolution
         enum = [os.path.normpath(str(x)) for x in ld.get_templates()]
         impl_enum = []
         for x in enum:
